@@ -42,6 +42,8 @@ type Prog struct {
 	rpoCache      map[*ssa.Function]map[*ssa.BasicBlock]int
 	inPhi         map[*ssa.Phi]bool
 	inLinPhi      map[*ssa.Phi]bool
+	phiFeasible   func(*ssa.Phi) []int   // set during SourcesAt
+	phiEnv        map[*ssa.Phi]ssa.Value // set during PathCond: join phis resolved along the current path
 	localFlag     map[*ssa.Alloc]bool
 	linAt         ssa.Instruction
 	versionDefs   map[versionKey][]ssa.Instruction
